@@ -73,7 +73,10 @@ def triples(rng, n):
            # large absolute times with exactly representable steps (epoch seconds, 2**23): the end test is relative to the step
            (1700000000.0, 1700000060.0, 1.0), (8388608.0, 8388608.5, 0.0078125), (-1700000000.0, -1699999990.0, 0.5),
            # very small steps in the model's time unit (nanoseconds on a seconds axis): any rounding allowance has to be relative to the step
-           (2e-8, 5e-8, 2.5e-10), (0.0, 1e-9, 3e-10), (0.0, 1e-6, 1e-8), (0.0, 3.5e-12, 1e-12), (1e-7, 1.0000004e-7, 1e-13)]
+           (2e-8, 5e-8, 2.5e-10), (0.0, 1e-9, 3e-10), (0.0, 1e-6, 1e-8), (0.0, 3.5e-12, 1e-12), (1e-7, 1.0000004e-7, 1e-13),
+           # thousands of steps away from the origin: rounding must not accumulate in the grid (an extra step of length 1e-12 advances
+           # an FDAE by a full model step)
+           (10.0, 12.0, 1e-3), (1000.0, 1001.0, 1e-3), (-1000.0, -999.0, 1e-3), (1e4, 10005.0, 0.05), (0.0, 200.0, 0.01)]
     hs = [0.1, 0.3, 1.0 / 3.0, 0.25, 0.01, 0.7, 0.05, 1e-3, 0.2, 0.6]
     while len(out) < n:
         h = float(rng.choice(hs))
@@ -234,6 +237,46 @@ def run(rep, tier, seed):
                         fails.append((dict(case, step=k), f"{name} started from the integer-typed array {start!r}: step {k} violates its discrete "
                                                           f"equation: residual {np.max(np.abs(r)):.3g}"))
                         break
+    # the global error is O(h) / O(h^2) for the Newton tolerances a user gets by default: x' = -x on [0, 10] with ite_tol = 1e-5 and
+    # steps down to 1e-4 (the residual of the step equation at the start value is h |F|: below ite_tol the state must still move)
+    dexp = _nDAE(_csc(np.array([[1.0]])), lambda t, y, p: -y, lambda t, y, p: _csc(np.array([[-1.0]])), {})
+    for name, solver, order in (("backward_euler", backward_euler, 1), ("implicit_trapezoid", implicit_trapezoid, 2)):
+        for h in ((1e-2, 1e-3) if tier == "quick" else (1e-2, 1e-3, 1e-4)):
+            case = dict(solver=name, problem="x' = -x, x(0) = 1 on [0, 10]", h=h, ite_tol="default (1e-5)")
+            try:
+                sol = quiet(solver, dexp, [0.0, 10.0], np.array([1.0]), Opt(step_size=h))
+            except Exception as ex:  # noqa
+                fails.append((case, f"{name}: raised {type(ex).__name__}: {ex}")); continue
+            nstepeq += 1
+            T, Y = np.asarray(sol.T), np.asarray(sol.Y, dtype=float)
+            err = float(np.max(np.abs(Y[:, 0] - np.exp(-T))))
+            bound = (0.5 * h if order == 1 else 0.2 * h * h) + 50 * 1e-5       # discretisation error + the Newton tolerance carried along
+            if not err <= bound:
+                fails.append((case, f"{name} with the default Newton tolerance and h = {h}: max error {err:.3g} on x' = -x over [0, 10] "
+                                    f"(x(10) = {Y[-1, 0]:.4g}, exact {np.exp(-10):.4g}); an O(h^{order}) method allows about {bound:.2g}"))
+    # a step on which Newton's iteration cycles (x' = -Saturation(100 x, -1, 1) across the kink, h = 0.1): the iterate it ends with does
+    # not satisfy the step equation — it must not be returned as a state of the trajectory
+    ksat = lambda x: 100.0 if abs(100.0 * x) < 1.0 else 0.0
+    dsat = _nDAE(_csc(np.array([[1.0]])), lambda t, y, p: -np.clip(100.0 * y, -1.0, 1.0), lambda t, y, p: _csc(np.array([[-ksat(y[0])]])), {})
+    from Solverz.num_api.num_eqn import nFDAE as _nFDAE
+    fsat = _nFDAE(lambda t, y, p, y0: y - y0 + 0.1 * np.clip(100.0 * y, -1.0, 1.0), lambda t, y, p, y0: _csc(np.array([[1.0 + 0.1 * ksat(y[0])]])), {}, 1)
+    for name, solver in (("backward_euler", backward_euler), ("implicit_trapezoid", implicit_trapezoid), ("fdae_solver", fdae_solver)):
+        case = dict(solver=name, problem="x' = -Saturation(100 x, -1, 1), x(0) = 0.95", h=0.1, ite_tol=1e-8)
+        try:
+            sol = quiet(solver, fsat if name == "fdae_solver" else dsat, [0.0, 2.0], np.array([0.95]), Opt(step_size=0.1, ite_tol=1e-8))
+        except Exception:  # noqa
+            continue            # raising is a way of not returning such a state
+        T, Y = np.asarray(sol.T), np.asarray(sol.Y, dtype=float)
+        for k in range(len(T) - 1):
+            nstepeq += 1
+            if name == "backward_euler" or name == "fdae_solver":
+                r = (Y[k + 1] - Y[k]) + 0.1 * np.clip(100.0 * Y[k + 1], -1.0, 1.0)
+            else:
+                r = (Y[k + 1] - Y[k]) + 0.05 * (np.clip(100.0 * Y[k + 1], -1.0, 1.0) + np.clip(100.0 * Y[k], -1.0, 1.0))
+            if not np.max(np.abs(r)) < 1e-8:
+                fails.append((dict(case, step=k), f"{name}: step {k} (t = {T[k + 1]}) was returned although Newton's iteration did not converge: "
+                                                  f"residual of the step equation {np.max(np.abs(r)):.3g} >= ite_tol 1e-08"))
+                break
     # steps larger than 1 (the Newton test must be on the step equation itself, not on a per-unit-time scaling of it)
     daem, ym = dae_problem("mild")
     for h in ([2.0] if tier == "quick" else [2.0, 4.0, 1.5]):
